@@ -43,6 +43,7 @@ func propC03(c *Ctx) {
 	c.ruleDeadErrorStores("C03-DEAD-ERROR-STORE")
 	c.ruleTypedNilError("C03-TYPED-NIL-ERROR")
 	c.ruleSchemaErrorMessage("C03-SCHEMA-ERROR-MESSAGE")
+	c.ruleDeclaredNameRequired("C03-DECLARED-NAME-REQUIRED")
 	c.ruleKindVisitedAll("C03-KIND-VISITED-ALL")
 	c.ruleErrorOnOwnDirective("C03-ERROR-ON-OWN-DIRECTIVE")
 }
